@@ -19,10 +19,11 @@
      MechAdvertiseW, MechAttrs, MechUsed
 
    A route is a record
-     [src, fam, nha, nhm, asattr, aspath, origin, lp, med, origid, clist, unk, comm]
+     [src, fam, nha, nhm, nhl, asattr, aspath, origin, lp, med, origid, clist, unk, comm]
    src     peer descriptor of the router the route was learned from (kind "local" = originated here)
    fam     "v4" | "v6"        address family of the prefix
-   nha     value of the NEXT_HOP attribute, or "none";  nhm  next hop inside MP_REACH_NLRI, or "none"
+   nha     value of the NEXT_HOP attribute, or "none";  nhm  (global) next hop inside MP_REACH_NLRI,
+           or "none";  nhl  link-local address that follows it there (32-octet next hop), or "none"
    aspath  sequence of [t |-> "SEQ"|"SET"|"CSEQ"|"CSET", as |-> <<asn,...>>]; asattr: attribute present
    lp, med -1 = attribute absent;   origid "none" = absent;   clist <<>> = absent
    unk     sorted sequence over {"N","T"}: unknown optional non-transitive / transitive attribute
@@ -99,7 +100,7 @@ SessionAS(t, loc) ==
   ELSE loc.as
 
 Attrs(r) == [origin |-> r.origin, asattr |-> r.asattr, aspath |-> r.aspath, nha |-> r.nha,
-             nhm |-> r.nhm, lp |-> r.lp, med |-> r.med, origid |-> r.origid, clist |-> r.clist,
+             nhm |-> r.nhm, nhl |-> r.nhl, lp |-> r.lp, med |-> r.med, origid |-> r.origid, clist |-> r.clist,
              unk |-> r.unk, comm |-> r.comm, other |-> <<>>]
 
 ---------------------------------------------------------------------------
@@ -145,6 +146,23 @@ PathOK(o, r, t, loc) ==
     [] OTHER                         -> o.aspath = r.aspath /\ o.asattr = r.asattr
 
 NhIs(o, a) == NhOf(o) = a /\ o.nha \in {NONE, a} /\ o.nhm \in {NONE, a}
+
+(* The WHOLE next-hop field.  RFC 2545 3: the link-local address is included in MP_REACH_NLRI "if
+   and only if the BGP speaker shares a common subnet with the entity identified by the global
+   IPv6 address ... and the peer the route is being advertised to"; "in all other cases" only the
+   global address is advertised.  nhl = the link-local address that came with a received route: it
+   belongs to the link of the neighbour the route was learned from.  Towards an external peer (a
+   different link, and the next hop is rewritten to the session's local address) it is never sent;
+   towards IBGP peers / route-server clients it may be dropped (gobgp drops it on receipt) or, on a
+   shared link, kept: both accepted; never invented. *)
+LlOK(o, r, t) ==
+  CASE t.kind = "ebgp"   -> o.nhl = NONE
+    [] t.kind = "confed" -> IF NhOf(o) = t.laddr THEN o.nhl = NONE ELSE o.nhl \in {NONE, r.nhl}
+    [] OTHER             -> o.nhl \in {NONE, r.nhl}
+
+(* what is stored for a received route r: r itself; the link-local half of the next hop may have
+   been dropped on receipt *)
+StoredIs(a, r) == a.nhl \in {NONE, r.nhl} /\ [a EXCEPT !.nhl = r.nhl] = Attrs(r)
 
 NhOK(o, r, t, loc) ==
   CASE t.kind = "ebgp" ->
@@ -200,15 +218,16 @@ UnkOK(o, r, t) ==
 SameOK(o, r) == o.origin = r.origin /\ o.comm = r.comm /\ o.other = <<>>
 
 AttrsConform(o, r, t, loc) ==
-  IF t.kind = "rsclient" THEN o = Attrs(r)                 \* RFC 7947 2: transparent
-  ELSE /\ PathOK(o, r, t, loc) /\ NhOK(o, r, t, loc) /\ LpOK(o, r, t) /\ MedOK(o, r, t)
+  IF t.kind = "rsclient" THEN StoredIs(o, r)               \* RFC 7947 2: transparent
+  ELSE /\ PathOK(o, r, t, loc) /\ NhOK(o, r, t, loc) /\ LlOK(o, r, t) /\ LpOK(o, r, t) /\ MedOK(o, r, t)
        /\ RrOK(o, r, t, loc) /\ UnkOK(o, r, t) /\ SameOK(o, r)
 
 (* name of the first clause that fails (for the trace spec's diagnostics) *)
 AttrsVerdict(o, r, t, loc) ==
-  IF t.kind = "rsclient" THEN (IF o = Attrs(r) THEN "ok" ELSE "rsclient-changed")
+  IF t.kind = "rsclient" THEN (IF StoredIs(o, r) THEN "ok" ELSE "rsclient-changed")
   ELSE IF ~PathOK(o, r, t, loc) THEN "aspath"
   ELSE IF ~NhOK(o, r, t, loc) THEN "nexthop"
+  ELSE IF ~LlOK(o, r, t) THEN "nexthop-link-local"
   ELSE IF ~LpOK(o, r, t) THEN "localpref"
   ELSE IF ~MedOK(o, r, t) THEN "med"
   ELSE IF ~RrOK(o, r, t, loc) THEN "originator/clusterlist"
@@ -217,13 +236,14 @@ AttrsVerdict(o, r, t, loc) ==
   ELSE "ok"
 
 SetNh(x, fam, a, is6) ==
-  IF fam = "v4" /\ is6 THEN [x EXCEPT !.nha = NONE, !.nhm = a]
-  ELSE [x EXCEPT !.nha = IF x.nha # NONE THEN a ELSE NONE, !.nhm = IF x.nhm # NONE THEN a ELSE NONE]
+  IF fam = "v4" /\ is6 THEN [x EXCEPT !.nha = NONE, !.nhm = a, !.nhl = NONE]
+  ELSE [x EXCEPT !.nha = IF x.nha # NONE THEN a ELSE NONE, !.nhm = IF x.nhm # NONE THEN a ELSE NONE,
+                 !.nhl = IF x.nhm # NONE THEN NONE ELSE @]      \* MP_REACH_NLRI rebuilt with one address
 
 (* the canonical conformant copy *)
 ExportAttrs(r, t, loc) ==
   LET las == SessionAS(t, loc)
-      a0  == Attrs(r)
+      a0  == [Attrs(r) EXCEPT !.nhl = NONE]      \* table.ProcessMessage keeps the global address only
       setnh == SetNh(a0, r.fam, t.laddr, t.l6)
       unkT == SelectSeq(r.unk, LAMBDA u : u = "T")
   IN CASE t.kind = "rsclient" -> a0
@@ -339,7 +359,7 @@ MechAdvertise(r, t, loc) == MechAdvertiseH(r, <<>>, t, loc)
 (* table.UpdatePathAttrs after path.ReplaceAS, followed by postFilterpath (RemoveLocalPref) *)
 MechAttrs(r, t, loc) ==
   LET las == SessionAS(t, loc)
-      a0  == Attrs(r)
+      a0  == [Attrs(r) EXCEPT !.nhl = NONE]      \* table.ProcessMessage keeps the global address only
       p1  == RepPeer(r.aspath, t, las)
       unk1 == SelectSeq(r.unk, LAMBDA u : u = "T")
       nhset == SetNh(a0, r.fam, t.laddr, t.l6)
